@@ -28,7 +28,7 @@ def required_buckets(tier):
     return ['C13/form/int', 'C13/form/label', 'C13/form/string_cell', 'C13/form/slice', 'C13/form/tuple_atom_atom',
             'C13/form/tuple_slice_atom', 'C13/form/tuple_atom_slice', 'C13/form/tuple_slice_slice', 'C13/form/list',
             'C13/form/malformed', 'C13/labels/default', 'C13/labels/custom', 'C13/labels/28rows', 'C13/step/2', 'C13/step/3',
-            'C13/open_end']
+            'C13/open_end', 'C13/step/backwards', 'C13/subslice/looked_at_parent', 'C13/subslice/negative_index', 'C13/labels/callers_list_changed']
 
 
 def plan(tier, seed):
@@ -47,11 +47,90 @@ def plan(tier, seed):
                              'params': {'shape': list(sh), 'custom': custom, 'part': part, 'parts': parts}})
                 n += 1
     jobs.append({'kind': 'labels', 'lo': n, 'hi': n + 1, 'params': {}})
+    n += 1
+    for sh in ([(3, 4), (1, 5), (4, 2)] if tier == 'quick' else [(3, 4), (1, 5), (4, 2), (5, 5), (2, 6), (6, 3)]):
+        jobs.append({'kind': 'subslices', 'lo': n, 'hi': n + 1, 'timeout': 1500, 'params': {'shape': list(sh)}})
+        n += 1
     return jobs
 
 
 def run_job(job):
-    return run_cases(job, enumerate_ if job['kind'] == 'enumerate' else labels)
+    return run_cases(job, {'enumerate': enumerate_, 'labels': labels, 'subslices': subslices}[job['kind']])
+
+
+def subslices(rng, case, idx):
+    """Slices of slices, completely for small plates: `plate[parent][item]` follows python / numpy indexing relative to the parent
+    selection (0-based, end-exclusive, negative indices from the end of the selection, any non-zero step).  The expected wells come
+    from applying the same index expression to a numpy grid of the parent's wells.  Every case is run on a fresh parent and on one
+    whose shape and size were read first (observers must not change what their argument does)."""
+    import itertools
+    import numpy
+    import pyplate.pyplate as pp
+    from pv.monitors import M
+    Rn, Cn = case['params']['shape']
+    plate = pp.Plate('p', '1 mL', rows=Rn, columns=Cn)
+    pos = {id(plate.wells[i, j]): (i, j) for i in range(Rn) for j in range(Cn)}
+    parents = [slice(None), (slice(None), slice(None)), (slice(2, None), slice(None)), (slice(None), slice(1, max(1, Cn - 1))),
+               (slice(1, None, 2), slice(None)), (slice(None), slice(None, None, 2)), (slice(Rn, 1, -1), slice(None)) if Rn > 1 else slice(None)]
+    def vals(n):
+        return [None, 0, 1, n - 1, n, n + 1, -1, -2, -n, -n - 1]
+    steps = [None, 1, 2, -1]
+    for par in parents:
+        try:
+            base = plate[par]
+            cells = [pos[id(w_)] for w_ in base.get().flatten()]
+            grid = numpy.arange(len(cells)).reshape(base.get().shape)
+        except Exception:
+            continue                  # (a backwards parent may be refused)
+        h, w = grid.shape
+        items = []
+        for a, b, c in itertools.product(vals(h), vals(h), steps):
+            items.append((slice(a, b, c), slice(None)))
+            items.append(slice(a, b, c))
+        for a, b, c in itertools.product(vals(w), vals(w), steps):
+            items.append((slice(None), slice(a, b, c)))
+            items.append((slice(0, 1), slice(a, b, c)))
+        for i_, j_ in itertools.product(range(-h, h), range(-w, w)):
+            items.append((i_, j_))
+        for n_, item in enumerate(items):
+            try:
+                want = numpy.asarray(grid[item])
+                if want.ndim == 0:
+                    want = want.reshape(1, 1)
+            except Exception:
+                continue
+            exp = [cells[int(k_)] for k_ in want.flatten()]
+            if not exp:
+                continue                  # empty selections are not judged
+            negative = any(isinstance(v_, int) and v_ < 0 for p_ in (item if isinstance(item, tuple) else (item,))
+                           for v_ in ((p_.start, p_.stop) if isinstance(p_, slice) else (p_,)))
+            for looked in (False, True):
+                parent = plate[par]
+                if looked:
+                    _ = (parent.shape, parent.size)
+                    M.bucket('C13/subslice/looked_at_parent')
+                M.count('ADDR')
+                M.count('ADDR.subslice')
+                if negative:
+                    M.bucket('C13/subslice/negative_index')
+                try:
+                    sub_ = parent[item]
+                    got = sub_.get()
+                    got = got if isinstance(got, numpy.ndarray) else numpy.array([[got]], dtype=object)
+                    idx_ = [pos[id(x)] for x in got.flatten()]
+                    size, shp = int(sub_.size), tuple(sub_.shape)
+                except Exception as e:   # noqa
+                    M.violate(['C13', 'C07'] + (['C04'] if looked else []), 'ADDR', 'C13:slice_of_slice_rejected' + (':negative_index' if negative else '') + (':after_reading_shape_of_parent' if looked else ''),
+                              {'plate': [Rn, Cn], 'parent': repr(par), 'item': repr(item), 'exc': repr(e)[:160]})
+                    continue
+                if idx_ != exp:
+                    M.violate(['C13', 'C07'], 'ADDR', 'C13:slice_of_slice_selects_other_wells' + (':negative_index' if negative else ''),
+                              {'plate': [Rn, Cn], 'parent': repr(par), 'item': repr(item), 'selected': idx_[:10], 'numpy': exp[:10]})
+                elif size != len(exp) or (len(shp) == 2 and shp != tuple(want.shape)) or int(numpy.prod(shp)) != len(exp):
+                    M.violate(['C13', 'C07'] + (['C04'] if looked else []), 'ADDR', 'C13:slice_of_slice_reports_wrong_shape_or_size' + (':after_reading_shape_of_parent' if looked else ''),
+                              {'plate': [Rn, Cn], 'parent': repr(par), 'item': repr(item), 'size': size, 'shape': shp, 'wells': len(exp)})
+                else:
+                    M.note_nontrivial('C13', ('sub', Rn, Cn, repr(par), repr(item)))
 
 
 def atoms(labels):
@@ -63,7 +142,7 @@ def slices(ats, n):
     out = []
     for a in [None] + ats:
         for b in [None] + ats:
-            for k in (None, 1, 2, 3, n + 1):
+            for k in (None, 1, 2, 3, n + 1, -1, -2, 0):
                 out.append(slice(a, b, k))
     return out
 
@@ -112,6 +191,11 @@ def compare(plate, pos, sel, M, R, counters, marks=None):
         err = None
     except Exception as e:   # noqa
         err = e
+    if verdict == 'select' and R.has_backwards_step(sel):
+        counters['step/backwards'] += 1
+        if err is not None:
+            counters['ADDR.backwards_refused'] += 1
+            return                      # refusing what the documentation does not describe is fine
     if verdict == 'reject':
         counters['ADDR.rejected'] += 1
         if err is None:
@@ -267,6 +351,24 @@ def labels(rng, case, idx):
     import pyplate.pyplate as pp
     from pv import refmodel as R
     from pv.monitors import M
+    # the labelling given at construction stays: what the caller does to their own lists afterwards changes nothing
+    rws, cls = ['ctrl', 'low', 'high'], ['x', 'y']
+    pl = pp.Plate('p', '1 mL', rows=rws, columns=cls)
+    pos_ = {id(pl.wells[i, j]): (i, j) for i in range(3) for j in range(2)}
+    for change in ('sort', 'reverse', 'append', 'rename'):
+        {'sort': lambda: (rws.sort(), cls.sort()), 'reverse': lambda: (rws.reverse(), cls.reverse()), 'append': lambda: (rws.append('more'), cls.append('z')),
+         'rename': lambda: (rws.__setitem__(0, 'other'), cls.__setitem__(0, 'w'))}[change]()
+        M.count('ADDR.labels')
+        M.bucket('C13/labels/callers_list_changed')
+        try:
+            got_ = {sel: [pos_[id(w_)] for w_ in pl[sel].get().flatten()] for sel in ('low', 'ctrl', 'high')}
+            gotc = [pos_[id(w_)] for w_ in pl[:, 'y'].get().flatten()]
+        except Exception as e:   # noqa
+            got_, gotc = repr(e)[:120], None
+        want_ = {'ctrl': [(0, 0), (0, 1)], 'low': [(1, 0), (1, 1)], 'high': [(2, 0), (2, 1)]}
+        if got_ != want_ or gotc != [(0, 1), (1, 1), (2, 1)]:
+            M.violate(['C13', 'C04'], 'ADDR', f'C13:labels_follow_the_callers_list:{change}', {'got': got_, 'column_y': gotc, 'documented': want_})
+            break
     for Rn, Cn in ((1, 1), (8, 12), (16, 24), (26, 2), (27, 2), (28, 3), (53, 1), (703, 1)):
         plate = pp.Plate('p', '1 mL', rows=Rn, columns=Cn)
         M.count('ADDR.labels')
